@@ -695,12 +695,45 @@ impl Machine {
                 self.fv[*dst as usize % NF] = Some(FReg { var: out, native: nat, is_const: is_const2, sign_free: false });
             }
             GOp::ToBits { a } => {
-                let (va, _, _) = ereg!(*a);
-                let _ = va.to_bits_le().map_err(|e| synth(e, &name))?;
+                let (va, na, _) = ereg!(*a);
+                let bits = va.to_bits_le().map_err(|e| synth(e, &name))?;
+                if self.run == Run::Honest && !self.suppress.get() {
+                    ctx.sub_eval();
+                    // what the library emits is the little-endian bits of the affine coordinates x then y (253
+                    // bits each). No native counterpart exists; the check is that they denote the element.
+                    let vals: Result<Vec<bool>, _> = bits.iter().map(|b| b.value()).collect();
+                    match vals {
+                        Ok(v) if v.len() == 506 => {
+                            let int = |bs: &[bool]| -> N { let mut n = N::from(0u32); for (i, b) in bs.iter().enumerate() { if *b { n.set_bit(i as u64, true); } } n };
+                            let p = crate::refmodel::Pt { x: int(&v[..253]), y: int(&v[253..]) };
+                            let want = crate::api::Coords::of::<Ark>(&na).affine().map_err(|e| Failure { signature: "harness|coords".into(), message: e })?;
+                            if p.x >= Q.m || p.y >= Q.m || !crate::refmodel::CURVE.same_element(&want, &p) {
+                                ctx.report("C13|ToBits|value", format!("to_bits_le decodes to ({:x}, {:x}), which is not a representative of the element", p.x, p.y))?;
+                            }
+                        }
+                        Ok(v) => ctx.class(&format!("ToBits:unexpected-length-{}", v.len())),
+                        Err(e) => ctx.report("C13|ToBits|value-error", format!("value() failed: {e:?}"))?,
+                    }
+                }
             }
             GOp::ToBytes { a } => {
-                let (va, _, _) = ereg!(*a);
-                let _ = va.to_bytes().map_err(|e| synth(e, &name))?;
+                let (va, na, _) = ereg!(*a);
+                let bytes = va.to_bytes().map_err(|e| synth(e, &name))?;
+                if self.run == Run::Honest && !self.suppress.get() {
+                    ctx.sub_eval();
+                    let got: Result<Vec<u8>, _> = bytes.iter().map(|b| b.value()).collect();
+                    match got {
+                        Ok(g) if g.len() == 64 => {
+                            let p = crate::refmodel::Pt { x: N::from_bytes_le(&g[..32]), y: N::from_bytes_le(&g[32..]) };
+                            let want = crate::api::Coords::of::<Ark>(&na).affine().map_err(|e| Failure { signature: "harness|coords".into(), message: e })?;
+                            if p.x >= Q.m || p.y >= Q.m || !crate::refmodel::CURVE.same_element(&want, &p) {
+                                ctx.report("C13|ToBytes|value", format!("to_bytes decodes to ({:x}, {:x}), which is not a representative of the element", p.x, p.y))?;
+                            }
+                        }
+                        Ok(g) => ctx.class(&format!("ToBytes:unexpected-length-{}", g.len())),
+                        Err(e) => ctx.report("C13|ToBytes|value-error", format!("value() failed: {e:?}"))?,
+                    }
+                }
             }
             GOp::ReadValue { a } => {
                 // on the register's own variable (not a clone), so that lazy state changes persist
